@@ -30,7 +30,8 @@ Record case := {
   k_cfg : cfg; k_or : oracle; k_err : err; k_sc : oscenario;
   k_is : list bool; k_as : option (Z * string);
   k_http : ohttp; k_grpc : ogrpc;
-  k_dec : ohttp; k_prx : ohttp; k_env : ogrpc }.
+  k_dec : ohttp; k_prx : ohttp; k_env : ogrpc;
+  k_up : list (string * string) }.   (* what the mechanism handed to ctx.AddHeaderForUpstream (handled scenarios) *)
 
 Definition to_scenario (s : oscenario) (e : err) : scenario :=
   match s with
@@ -88,9 +89,15 @@ Definition targets : list target :=
 Definition as_eqb (a b : option (Z * string)) : bool :=
   option_eqb (fun x y => (fst x =? fst y) && String.eqb (snd x) (snd y)) a b.
 
+Definition pair_eqb (a b : string * string) : bool := String.eqb (fst a) (fst b) && String.eqb (snd a) (snd b).
+
+Definition model_up (s : oscenario) (e : err) : list (string * string) :=
+  match s with SHandled m => hd_upstream (mech_exec m e) | _ => [] end.
+
 Definition corr (k : case) : bool :=
   let c := k_cfg k in let o := k_or k in let e := k_err k in
   let sc := to_scenario (k_sc k) e in
+  list_eqb pair_eqb (model_up (k_sc k) e) (k_up k) &&
   list_eqb Bool.eqb (map (fun t => is_ t e) targets) (k_is k) &&
   as_eqb (as_redirect e) (k_as k) &&
   hresp_match (http_handle c o e no_hdrs) (k_http k) &&
@@ -182,7 +189,12 @@ Definition prop (k : case) : bool :=
       let e' := told m e in
       http_answer_ok c o e' (k_dec k) && http_answer_ok c o e' (k_prx k) && grpc_answer_ok c o e' (k_env k) &&
       ohttp_hdrs_ok (demanded_headers_b m) (k_dec k) && ohttp_hdrs_ok (demanded_headers_b m) (k_prx k) &&
-      ogrpc_hdrs_ok (demanded_headers_b m) (k_env k)
+      ogrpc_hdrs_ok (demanded_headers_b m) (k_env k) &&
+      (* the challenge the www_authenticate handler produced names the configured realm *)
+      match m with
+      | MWWW realm => list_eqb pair_eqb (k_up k) [("WWW-Authenticate"%string, ("Basic realm=" ++ effective_realm realm)%string)]
+      | _ => is_nil (k_up k)
+      end
   | SPanic b =>
       let e' := recovered (if b then Some e else None) in
       http_answer_ok c o e' (k_dec k) && http_answer_ok c o e' (k_prx k) &&
@@ -211,6 +223,6 @@ Definition mkcfg v a z m p n i :=
   {| c_verbose := v; ov_authn := a; ov_authz := z; ov_comm := m; ov_precond := p; ov_norule := n; ov_internal := i |}.
 Definition mkor h g j x p := {| o_neg_http := h; o_neg_grpc := g; o_json_ne := j; o_xml_ne := x; o_plain_ne := p |}.
 Definition hd l w c := {| oh_loc := l; oh_www := w; oh_ct := c |}.
-Definition mkcase c o e s i a h g d p v :=
+Definition mkcase c o e s i a h g d p v u :=
   {| k_cfg := c; k_or := o; k_err := e; k_sc := s; k_is := i; k_as := a; k_http := h; k_grpc := g;
-     k_dec := d; k_prx := p; k_env := v |}.
+     k_dec := d; k_prx := p; k_env := v; k_up := u |}.
